@@ -224,3 +224,6 @@ def check(run):
     run.guard(rules_order, run, 'C07', '.2')
     from .c16 import rules_caches
     run.guard(rules_caches, run, 'C07', '.4')
+    # grouping must not depend on the adjacency (declaration order) of the items
+    from .c01 import rules_groupby
+    run.guard(rules_groupby, run, 'C07.5')
